@@ -1,0 +1,8 @@
+//go:build !verif
+
+// Package verifhook provides fail points for the verification harness. Without
+// the "verif" build tag Fire is an empty function which the compiler inlines away.
+package verifhook
+
+// Fire reports that the member `who` reached `point` while working on partition `part`.
+func Fire(point, who string, part uint64) error { return nil }
